@@ -5,7 +5,7 @@ import math
 
 import numpy as np
 
-from ..common import Ctx, Tokens, close, driver_batch, f2b, fmat, fvec
+from ..common import Ctx, Tokens, b2f, close, driver_batch, f2b, fmat, fvec
 
 LEVEL = "proof"
 LEVEL_TEXT = (
@@ -26,11 +26,23 @@ LEVEL_TEXT = (
     "code rejects, and the row look-up theorem holds for the generated programs together (gen_row_lookup_correct). Way 2: hand "
     "model (quadrature, dipole) and the generated programs themselves compared with the implementation "
     "(order lists exactly, values with tolerance, solid-harmonic tables taken from the library); values end to end against "
-    "independently coded basis functions by the oracle."
+    "independently coded basis functions by the oracle. Round 3 (Gen/MomentsNum.lean, translator moments_num.py, generic carrier): the loop "
+    "over the centres of Grid.moments (every branch of the type, np.prod / np.linalg.norm / einsum calls with their axes and subscripts, "
+    "the index block, np.array(integrals).T, return_orders, the defaults of the signature), Grid.integrate, the dictionary "
+    "utils.isotopic_masses as exact decimals, dipole_moment_of_molecule and MultiDomainGrid.moments are translated statement by statement; "
+    "theorems: the generated loop body equals the model's perCentre for every type (gen_centre_eq_model); the property clause over the "
+    "generated Grid.moments as a whole - entry (k, centre) = direct quadrature, returned order array = stacked Horton list, with and "
+    "without return_orders (gen_moments_entry); the table has the keys 1..82 each once, every entry a positive decimal within 2.5 % of the "
+    "standard atomic weight of its element, look-ups outside raise KeyError (gen_masses_keys, gen_masses_entries, gen_masses_sane; pairwise distinct, increasing in Z except at K, Ni, Br, I: gen_masses_distinct, gen_masses_increasing; "
+    "gen_mass_keyerror, gen_mass_last); the generated dipole helper with the regenerated table equals the model and is nuclear minus "
+    "electronic first moments about the centre of mass for every non-empty list of atomic numbers 1..82, charged or not "
+    "(gen_dipole_eq_model, gen_dipole_spec: the mass sum is positive, so no hypothesis on it remains); Grid.integrate is sum_i w_i prod_k "
+    "a_k[i] (gen_integrate_spec); the documented defaults and the NotImplementedError of MultiDomainGrid.moments."
 )
 TECHNIQUE = "Lean 4 proof (order enumeration, index arithmetic, entry = quadrature) + differential correspondence + direct-quadrature oracle"
-GEN = ["moments"]
-LEAN_MODULES = ["GridVerif.Props.C14", "GridVerif.Props.C14.Values", "GridVerif.Props.C14.Dipole", "GridVerif.Props.C14.Gen"]
+GEN = ["moments", "moments_num"]
+LEAN_MODULES = ["GridVerif.Props.C14", "GridVerif.Props.C14.Values", "GridVerif.Props.C14.Dipole", "GridVerif.Props.C14.Gen",
+                "GridVerif.Props.C14.GenNum", "GridVerif.Props.C14.GenDipole"]
 THEOREMS = [
     "GridVerif.C14.cartesian_orders_spec",
     "GridVerif.C14.pure_orders_spec",
@@ -49,6 +61,23 @@ THEOREMS = [
     "GridVerif.C14.gen_moments_orders_radial_zero",
     "GridVerif.C14.gen_solid_degree",
     "GridVerif.C14.gen_row_lookup_correct",
+    # round 3: over the numeric text generated from Grid.moments (loop over the centres), Grid.integrate,
+    # utils.isotopic_masses, utils.dipole_moment_of_molecule, MultiDomainGrid.moments (Gen/MomentsNum.lean)
+    "GridVerif.C14.gen_centre_eq_model",
+    "GridVerif.C14.gen_moments_entry",
+    "GridVerif.C14.gen_masses_keys",
+    "GridVerif.C14.gen_masses_entries",
+    "GridVerif.C14.gen_masses_sane",
+    "GridVerif.C14.gen_masses_distinct",
+    "GridVerif.C14.gen_masses_increasing",
+    "GridVerif.C14.gen_mass_keyerror",
+    "GridVerif.C14.gen_mass_last",
+    "GridVerif.C14.massR_lookup",
+    "GridVerif.C14.gen_dipole_eq_model",
+    "GridVerif.C14.gen_dipole_spec",
+    "GridVerif.C14.gen_integrate_spec",
+    "GridVerif.C14.gen_moments_defaults",
+    "GridVerif.C14.gen_multidomain_not_implemented",
 ]
 RULE = (
     "correspondence: generate_orders_horton_order for every type x dim 0..4 x order 0..8 (exact); Grid.moments on random "
@@ -61,11 +90,26 @@ RULE = (
     "default-type / return_orders on-off call forms, the same call twice on one grid object with another call in between, several "
     "successive cases on one grid object; the generator in two further request orders; the dipole helper with lists, integer / "
     "int32 / float charges, integer coordinates, read-only arrays, called twice; the generated programs (gen:*) on all of these calls "
-    "plus 2-D function values, 1-D / 3-D centres, float / np.int16 orders, unknown type names"
+    "plus 2-D function values, 1-D / 3-D centres, float / np.int16 orders, unknown type names. Round 3: the generated Grid.moments as a "
+    "whole (gen:moments:*) on every one of these calls incl. return_orders on/off/default and the default type; the generated dipole helper, "
+    "every key of isotopic_masses bit for bit and the integers around the range, Grid.integrate with 0-4 arguments (right / wrong length, "
+    "2-D, 0-d, non-arrays, values scaled by 1e-300 … 1e12), MultiDomainGrid.moments; data of extreme magnitude in ~1/5 of the moment cases "
+    "(variant:extreme=*: function values x 1e-300 … 1e12, weights x 1e-12 / 1e12, grid and centres translated by +-2^10 … 2^20 with "
+    "the untranslated call as reference, a centre 2^10 … 2^15 away, a grid point 1e-8 … 1e-300 from a centre at the origin); the array "
+    "returned by moments / by the order generator edited in place before the next call; grid points / weights unchanged by moments; oracle: "
+    "13 library grids with derived point arrays (off-origin / single-shell AtomGrid, MolGrid, LocalGrid, wrapped PeriodicGrid incl. a "
+    "negative 1-D lattice vector, UniformGrid with negative axes in 2-D / 3-D, Tensor1DGrids, OneDGrid, one-point Grid) with the grid's own "
+    "centre, the origin, a grid point and a shell point as centres, integrate(f) = zeroth moment on each; dipole for every Z of the table "
+    "(the last one in every run), net charges -2 … +2, molecules 2^k from the origin; masses against independent standard atomic weights"
 )
 TRUSTED_BASE = [
     "Lean 4.33 kernel; axioms propext, Classical.choice, Quot.sound only (audited per theorem)",
-    "hand model Model/Moments.lean of the quadrature part of Grid.moments and of dipole_moment_of_molecule, tied by correspondence",
+    "hand model Model/Moments.lean of the quadrature part of Grid.moments and of dipole_moment_of_molecule, tied by correspondence and (round 3) "
+    "by gen_centre_eq_model / gen_dipole_eq_model to the text generated from the source",
+    "translator harness/translate/moments_num.py and the NumPy primitives of Model/MomentsNum.lean (npSubRow, npPowMatArrCol, npProdAxis2, "
+    "npNormAxis1, npEinsum*, npTakeRows, npArrayT, pyDictGet, decimalK, npEinsumAllI, …: shape checks raise, size-1 broadcasting is not "
+    "modelled); an `(N,)` point array enters the generated loop as N rows of one entry; mitigation: the generated programs are run by the "
+    "driver on every call of the correspondence",
     "translator harness/translate/moments.py (Python AST -> Gen/Moments.lean) and the NumPy/Python primitives it targets (pyRange, npVstack, "
     "npArrayRows, npUnpack3T, npMaskGet, npMaskIAdd, ... in Model/Moments.lean); mitigation: the generated programs are run by the driver "
     "and compared with the implementation (order arrays incl. their number of dimensions, accepted/rejected calls) and the index "
@@ -76,7 +120,10 @@ TRUSTED_BASE = [
 ASSUMPTIONS = [
     "exact real arithmetic in the theorems; floating-point agreement up to 1e-10 of the sum of |terms|",
     "zero centres (output of shape (0,)) and negative orders are outside the model",
-    "isotopic_masses lookup is data: the masses are passed to the model",
+    "isotopic_masses: the hand model takes the masses as an argument; the generated dipole helper reads the regenerated table (exact decimals; in "
+    "Float the quotient numerator/denominator is the double Python reads from the literal, checked bit for bit)",
+    "separations between 1e-155 and 1e-162 of a grid point from a centre are not generated (pure types lose accuracy / return nan there: "
+    "underflow of r^2 in convert_cart_to_sph; judged outside the claim, DESIGN 3: overflow/underflow paths are not modelled; info line of every run); below 1e-162 the point counts as coincident (absolute floor 1e-150 sum|w f|)",
     "centres and function values are NumPy arrays (the documented types): a Python list for either is rejected by Grid.moments with "
     "AttributeError ('list' object has no attribute 'ndim') before anything is computed - a rejection, outside the property; the dipole "
     "helper accepts lists (covered)",
@@ -222,14 +269,22 @@ def call_moments(case, Grid):
     if not case.get("twice"):
         return once()
     f0, cs0 = np.array(f, copy=True), np.array(cs, copy=True)
+    p0, w0 = np.array(g.points, copy=True), np.array(g.weights, copy=True)
     v1, o1 = once()
+    v1c, o1c = np.array(v1, copy=True), np.array(o1, copy=True)
+    # what the call returned belongs to the caller: it is edited in place before the next calls
+    for a in (v1, o1):
+        if isinstance(a, np.ndarray) and a.flags.writeable and a.size:
+            a[...] = -7
     other = "radial" if case["typ"] != "radial" else "cartesian"
     g.moments(int(case["L"]) + 1, np.array(cs0[:1], dtype=float) + 0.25, f, type_mom=other)
     v2, o2 = once()
-    if not (np.array_equal(np.asarray(v1), np.asarray(v2), equal_nan=True) and np.array_equal(np.asarray(o1), np.asarray(o2))):
-        raise AssertionError("state: the same call on the same grid object gave two different answers")
+    if not (np.array_equal(v1c, np.asarray(v2), equal_nan=True) and np.array_equal(o1c, np.asarray(o2))):
+        raise AssertionError("state: the same call on the same grid object gave two different answers (the first answer was edited in place by the caller in between)")
     if not (np.array_equal(f0, f) and np.array_equal(cs0, cs)):
         raise AssertionError("state: moments changed one of its argument arrays")
+    if not (np.array_equal(p0, g.points) and np.array_equal(w0, g.weights)):
+        raise AssertionError("state: moments changed the points / weights of the grid")
     return v2, o2
 '''
 exec(CALL_SRC, _ns)
@@ -263,7 +318,8 @@ def call_dipole(d, Grid, dipole_moment_of_molecule):
 exec(DIPOLE_CALL_SRC, _ns)
 call_dipole = _ns["call_dipole"]
 
-VARIANT_KEYS = ("fdtype", "cdtype", "clayout", "flayout", "otype", "call", "twice", "reuse_grid", "cs_is_points")
+VARIANT_KEYS = ("fdtype", "cdtype", "clayout", "flayout", "otype", "call", "twice", "reuse_grid", "cs_is_points", "extreme")
+PUB_KEYS = ("typ", "L", "dim", "pts", "w", "f", "cs") + VARIANT_KEYS + ("atol", "unshifted")
 
 
 def _r(x, nd=3):
@@ -311,11 +367,72 @@ def _case(ctx: Ctx, typ=None, dim=None, Lmax=6, prev=None):
     elif fdtype == "float32":
         f = [float(np.float32(x)) for x in f]
     lay = ["c"] * 5 + ["fortran", "strided", "readonly"]
-    return dict(typ=typ, L=L, dim=dim, pts=pts, w=w, f=f, cs=cs, fdtype=fdtype, cdtype=cdtype,
-                clayout=rng.choice(lay), flayout=rng.choice(lay),
-                otype=rng.choice(["int"] * 4 + ["np.int32", "np.int64"]),
-                call=rng.choice(["kw"] * 4 + ["positional", "no-orders", "all-kw"] + (["default-type"] if typ == "cartesian" else [])),
-                twice=rng.random() < 0.15, reuse_grid=reuse, cs_is_points=cs_is_points)
+    c = dict(typ=typ, L=L, dim=dim, pts=pts, w=w, f=f, cs=cs, fdtype=fdtype, cdtype=cdtype,
+             clayout=rng.choice(lay), flayout=rng.choice(lay),
+             otype=rng.choice(["int"] * 4 + ["np.int32", "np.int64"]),
+             call=rng.choice(["kw"] * 4 + ["positional", "no-orders", "all-kw"] + (["default-type"] if typ == "cartesian" else [])),
+             twice=rng.random() < 0.15, reuse_grid=reuse, cs_is_points=cs_is_points)
+    if rng.random() < 0.22 and not reuse and not cs_is_points:
+        _extreme(ctx, c)
+    return c
+
+
+EXTREME_KINDS = ["fscale", "wscale", "shift", "far", "near"]
+NEAR_EPS = [1e-8, 1e-12, 1e-50, 1e-100, 1e-150, 1e-170, 1e-200, 1e-300]
+
+
+def _extreme(ctx: Ctx, c, kind=None):
+    """Data of extreme but legal magnitude (round 3, class 8 / 7 / 12), in place:
+    fscale  function values scaled by 1e-300 … 1e12 (results are compared relative to that scale);
+    wscale  weights scaled by 1e-12 / 1e12;
+    shift   grid and centres translated by +-2^k, k = 10..20, coordinates dyadic so that the translation is exact
+            (the moments are translation invariant: the oracle compares with the untranslated call);
+    far     one centre 2^10 … 2^15 away from the grid (monomials up to ~1e27, compared relative to sum |w f| |d|^n);
+    near    the origin as a centre and a grid point eps away from it, eps = 1e-8 … 1e-300: both sides of the `r == 0.0`
+            branch of convert_cart_to_sph and of the underflow of r^2 (below ~1e-162 the squares underflow and the point
+            counts as coincident: absolute error <= eps^l |w f|, hence the absolute floor 1e-150; separations between
+            1e-155 and 1e-162 are NOT generated: see the report, the pure types lose accuracy / return nan there)."""
+    rng = ctx.rng
+    kind = kind or rng.choice(EXTREME_KINDS)
+    c.update(fdtype="float64", cdtype="float64", extreme=kind)
+    n, dim = len(c["pts"]), c["dim"]
+    if kind == "fscale":
+        s_ = rng.choice([1e-300, 1e-50, 1e-12, 1e12])
+        c["f"] = [_r(rng.uniform(-2, 2)) * s_ for _ in range(n)]
+        c["extreme"] = f"fscale:{s_:g}"
+    elif kind == "wscale":
+        s_ = rng.choice([1e-12, 1e12])
+        c["w"] = [x * s_ for x in c["w"]]
+        c["f"] = [_r(rng.uniform(-2, 2)) for _ in range(n)]
+        c["extreme"] = f"wscale:{s_:g}"
+    elif kind == "shift":
+        k = rng.randint(10, 20)
+        T = [rng.choice([-1.0, 1.0]) * 2.0 ** k for _ in range(dim)]
+        dy = lambda x: round(x * 1024) / 1024
+        c["unshifted"] = dict(pts=[[dy(x) for x in p] for p in c["pts"]], cs=[[dy(x) for x in p] for p in c["cs"]])
+        c["pts"] = [[x + t for x, t in zip(p, T)] for p in c["unshifted"]["pts"]]
+        c["cs"] = [[x + t for x, t in zip(p, T)] for p in c["unshifted"]["cs"]]
+        c["f"] = [_r(rng.uniform(-2, 2)) for _ in range(n)]
+        c["extreme"] = f"shift:2^{k}"
+    elif kind == "far":
+        k = rng.randint(10, 15)
+        c["cs"][rng.randrange(len(c["cs"]))] = [rng.choice([-1.0, 1.0]) * 2.0 ** k * rng.choice([1.0, 0.5, 0.0]) + rng.choice([0.0, 0.25]) for _ in range(dim)]
+        c["f"] = [_r(rng.uniform(-2, 2)) for _ in range(n)]
+        c["L"] = min(c["L"], 4)
+        c["extreme"] = f"far:2^{k}"
+    else:
+        eps = rng.choice(NEAR_EPS)
+        d = [rng.choice([0.0, 1.0, -1.0, 0.5, -0.25]) for _ in range(dim)]
+        if not any(d):
+            d[rng.randrange(dim)] = 1.0
+        c["cs"][0] = [0.0] * dim
+        c["pts"][0] = [x * eps for x in d]
+        if rng.random() < 0.5:           # every grid point that close (the tiny terms are then the whole integral)
+            c["pts"] = [[rng.choice([0.0, 1.0, -1.0, 0.5, -0.25, 0.75]) * eps for _ in range(dim)] for _ in range(n)]
+            c["cs"] = c["cs"][:1] + [[rng.choice([0.0, 1.0, -0.5]) * eps for _ in range(dim)] for _ in c["cs"][1:]]
+        c["f"] = [_r(rng.uniform(-2, 2)) for _ in range(n)]
+        c["atol"] = 1e-150 * (1.0 + sum(abs(a * b) for a, b in zip(c["w"], c["f"])))
+        c["extreme"] = f"near:{eps:g}"
 
 
 def _arr(a):
@@ -388,7 +505,10 @@ def corr(ctx: Ctx):
             o2 = o.reshape(-1, 1) if o.ndim == 1 and ty == "radial" else o
             if o2.size == 0:
                 return "ok 0 0", "ok " + _arr(o)
-            return "ok " + " ".join([str(o2.shape[0]), str(o2.shape[1])] + [str(int(x)) for x in o2.ravel()]), "ok " + _arr(o)
+            res = "ok " + " ".join([str(o2.shape[0]), str(o2.shape[1])] + [str(int(x)) for x in o2.ravel()]), "ok " + _arr(o)
+            if isinstance(o, np.ndarray) and o.flags.writeable:
+                o[...] = -9                 # the returned array is the caller's: edited in place, later calls must not see it
+            return res
         except ValueError:
             return "value-error", "value-error"
         except Exception as e:                      # anything else is not an accepted outcome
@@ -460,7 +580,7 @@ def corr(ctx: Ctx):
         lines.append(_line(c, c["_tabs"]))
     ans = driver_batch(lines)
     for c, a in zip(cases + extra, ans):
-        pub = {k: c[k] for k in ("typ", "L", "dim", "pts", "w", "f", "cs") + VARIANT_KEYS if k in c}
+        pub = {k: c[k] for k in PUB_KEYS if k in c}
         tag, vals, orders = _impl_moments(c)
         c["_tag"] = tag
         rejected = tag != "ok"
@@ -486,10 +606,12 @@ def corr(ctx: Ctx):
         if len(mvals) != len(vals) or any(len(a_) != len(b_) for a_, b_ in zip(mvals, vals)):
             ctx.fail("corr", f"basegrid.moments:{c['typ']}:shape", f"shape differs: implementation {np.shape(vals)}, model {np.shape(mvals)}", witness=pub)
             continue
+        c["_vals"], c["_scale"] = vals, [[0.0] * len(c["cs"]) for _ in orders]
         for k, order in enumerate(orders):
             for ci, cen in enumerate(c["cs"]):
                 _, scale = direct(c["typ"], order, c["pts"], c["w"], c["f"], cen)
-                if not close(vals[k][ci], mvals[k][ci], rtol=1e-10, scale=scale + 1e-300):
+                c["_scale"][k][ci] = scale
+                if not close(vals[k][ci], mvals[k][ci], rtol=1e-10, scale=scale + 1e-300, atol=c.get("atol", 0.0)):
                     ctx.fail("corr", f"basegrid.moments:{c['typ']}", f"entry (row {k} = {order}, centre {ci}): implementation {vals[k][ci]!r}, model {mvals[k][ci]!r}",
                              witness=dict(pub, row=k, order=order, centre=ci))
     # 3a. the translated programs of Grid.moments (Gen/Moments.lean) on the same calls: the statements before the
@@ -510,7 +632,7 @@ def corr(ctx: Ctx):
         c.update(cs_is_points=False, twice=False, call="kw", cdtype="float64")
         c["_bad"] = ctx.rng.choice(["f-2d", "centres-1d", "orders-float", "orders-int16", "centres-3d"])
         gcases.append(c)
-    glines = []
+    glines, flines = [], []
     for c in gcases:
         g, L, cs, f = build_args(c, bg.Grid)
         bad = c.get("_bad")
@@ -535,6 +657,12 @@ def corr(ctx: Ctx):
             except Exception as e:
                 c["_tag"] = f"raised {type(e).__name__}: {e}"
         c["_shapes"] = (list(g.points.shape), list(np.shape(cs)), list(np.shape(f)))
+        P, csA = np.asarray(g.points, dtype=float), np.asarray(cs, dtype=float)
+        c["_ret"] = "default" if c.get("call") == "no-orders" and not bad else "1"
+        flines.append(f"C14.gen-moments {'default' if c.get('call') == 'default-type' and not bad else c['typ']} {int(c['L'])} {c.get('otype', 'int')} {c['_ret']} "
+                      f"{_ivec(P.shape)} {fmat((P.reshape(-1, 1) if P.ndim == 1 else P).tolist())} {fvec(np.asarray(g.weights, dtype=float))} "
+                      f"{_ivec(csA.shape)} {fmat(csA.tolist()) if csA.ndim == 2 else '0 0'} {_ivec(np.shape(f))} {fvec(np.asarray(f, dtype=float).ravel())} "
+                      f"{len(c.get('_tabs', []))}" + "".join(" " + fmat(t) for t in c.get("_tabs", [])))
         glines.append(f"C14.gen-orders {_ivec(g.points.shape)} {_ivec(np.shape(cs))} {_ivec(np.shape(f))} {int(c['L'])} {c.get('otype', 'int')} {c['typ']}")
     gans = driver_batch(glines)
     idx_lines, idx_cases = [], []
@@ -573,6 +701,33 @@ def corr(ctx: Ctx):
         if a.strip() != "ok " + _ivec(lib) or lib != ref:
             ctx.fail("corr", "basegrid.moments:row-index:generated", f"L={c['L']}: index statements of the library give {lib[:12]}…, translated program {a[:60]}…, "
                      f"rows of (l,m) in the Horton-2 list {ref[:12]}…", witness=dict(L=c["L"]))
+    # 3a'. the whole of Grid.moments as generated (Gen/MomentsNum.lean: the statements before the loop, the loop over the
+    #      centres with every branch of the type, np.array(integrals).T, return_orders; defaults of the signature) on the
+    #      same calls: values, order array, rejections
+    for c, a in zip(gcases, driver_batch(flines)):
+        wit = dict({k: c[k] for k in PUB_KEYS if k in c}, bad=c.get("_bad"))
+        ctx.count(["gen-moments", wit], nontrivial=True, tag="gen:moments:" + (c.get("_bad") or (c["typ"] if c["_tag"] == "ok" else "reject")))
+        t = Tokens(a)
+        gt = t.tok()
+        if gt != c["_tag"]:
+            ctx.fail("corr", "basegrid.moments:generated", f"moments(L={c['L']}, {c['typ']}, {c.get('_bad', '')}): implementation {c['_tag']}, the translated function {a[:60]}", witness=wit)
+            continue
+        if gt != "ok" or "_vals" not in c:
+            continue
+        gvals = t.fmat()
+        rest = " ".join(t.t[t.i:])
+        if rest != ("0" if c["_ret"] == "default" else "1 " + c["_orders_arr"]):
+            ctx.fail("corr", "basegrid.moments:generated:orders", f"order array / return_orders: implementation [{c['_orders_arr'][:50]}…] (return_orders {c['_ret']}), "
+                     f"translated function [{rest[:50]}…]", witness=wit)
+            continue
+        if np.shape(gvals) != np.shape(c["_vals"]):
+            ctx.fail("corr", "basegrid.moments:generated:shape", f"shape: implementation {np.shape(c['_vals'])}, translated function {np.shape(gvals)}", witness=wit)
+            continue
+        for k in range(len(gvals)):
+            for ci in range(len(gvals[k])):
+                if not close(c["_vals"][k][ci], gvals[k][ci], rtol=1e-10, scale=c["_scale"][k][ci] + 1e-300, atol=c.get("atol", 0.0)):
+                    ctx.fail("corr", f"basegrid.moments:generated:{c['typ']}", f"entry (row {k}, centre {ci}): implementation {c['_vals'][k][ci]!r}, translated function {gvals[k][ci]!r}",
+                             witness=dict(wit, row=k, centre=ci))
     degs = [(ty, L) for ty in TYPES for L in range(0, 7) if not (ty == "pure-radial" and L == 0)]
     for (ty, L), a in zip(degs, driver_batch([f"C14.gen-degree {_ivec(range(1 if ty == 'pure-radial' else 0, L + 1))}" for ty, L in degs])):
         ctx.count(["gen-degree", ty, L], nontrivial=False, tag="gen:degree")
@@ -639,7 +794,7 @@ def corr(ctx: Ctx):
                  w=[_r(ctx.rng.uniform(0.0, 1.5)) for _ in range(n)],
                  dens=[_r(ctx.rng.uniform(0.0, 2.0)) for _ in range(n)],
                  coords=[[_r(ctx.rng.uniform(-1.5, 1.5)) for _ in range(3)] for _ in range(na)],
-                 charges=[ctx.rng.randint(1, 18) for _ in range(na)])
+                 charges=[ctx.rng.choice([ctx.rng.randint(1, 18), ctx.rng.randint(1, 82), 82, 1]) for _ in range(na)])
         d["masses"] = [float(ut.isotopic_masses[z]) for z in d["charges"]]
         # container kind / dtype of the arguments: lists and integer arrays are accepted by the helper
         d["container"] = ctx.rng.choice(["array"] * 3 + ["list", "int32-charges", "float-charges", "int-coords", "readonly"])
@@ -666,6 +821,103 @@ def corr(ctx: Ctx):
         scale = sum(abs(z) for z in d["charges"]) * 4 + sum(abs(x * y) for x, y in zip(d["w"], d["dens"])) * 4
         if len(mv) != len(got) or not all(close(x, y, rtol=1e-11, scale=scale) for x, y in zip(got, mv)):
             ctx.fail("corr", "utils.dipole_moment_of_molecule", f"implementation {got}, model {mv}", witness=d)
+        d["_got"], d["_scale"] = got, scale
+    _corr_generated_rest(ctx, bg, ut, dcases)
+
+
+def _corr_generated_rest(ctx: Ctx, bg, ut, dcases):
+    """The other programs of Gen/MomentsNum.lean next to the implementation: the dipole helper (with the mass table as
+    regenerated), the table itself entry by entry (bit-exact), Grid.integrate, MultiDomainGrid.moments."""
+    rng = ctx.rng
+    # 4a. dipole_moment_of_molecule as generated: masses come from the generated table, moments from the generated Grid.moments
+    lines = [f"C14.gen-dipole {_ivec([len(d['pts']), 3])} {fmat(d['pts'])} {fvec(d['w'])} {fvec(d['dens'])} {fmat(d['coords'])} {_ivec(d['charges'])}" for d in dcases]
+    for d, a in zip(dcases, driver_batch(lines)):
+        if "_got" not in d:
+            continue
+        ctx.count(["gen-dipole", {k: d[k] for k in ("pts", "w", "dens", "coords", "charges")}], nontrivial=len(d["charges"]) >= 2, tag="gen:dipole")
+        t = Tokens(a)
+        if t.tok() != "ok":
+            ctx.fail("corr", "utils.dipole_moment_of_molecule:generated", f"the translated function answered {a}", witness=d)
+            continue
+        mv = t.fvec()
+        if len(mv) != len(d["_got"]) or not all(close(x, y, rtol=1e-11, scale=d["_scale"]) for x, y in zip(d["_got"], mv)):
+            ctx.fail("corr", "utils.dipole_moment_of_molecule:generated", f"implementation {d['_got']}, translated function {mv}", witness=d)
+    # 4b. isotopic_masses: every key of the library's dictionary and the integers around its range
+    keys = sorted(set(ut.isotopic_masses) | set(range(-2, max(ut.isotopic_masses) + 4)))
+    for z, a in zip(keys, driver_batch([f"C14.gen-mass {z}" for z in keys])):
+        want = ("ok " + f2b(ut.isotopic_masses[z])) if z in ut.isotopic_masses else "key-error"
+        ctx.count(["gen-mass", z], nontrivial=z in ut.isotopic_masses, tag="gen:mass")
+        if a.strip() != want:
+            ctx.fail("corr", "utils.isotopic_masses:generated", f"isotopic_masses[{z}]: implementation {ut.isotopic_masses.get(z)!r} ({want}), regenerated table {a}", witness=dict(Z=z))
+    # 4c. Grid.integrate: 0-4 arguments, arrays of the right / a wrong length, 2-D arrays, objects that are not arrays
+    icases, lines = [], []
+    for it in range(ctx.n(60, 600)):
+        n = rng.randint(1, 8)
+        w = [_r(rng.uniform(-0.5, 1.5)) for _ in range(n)]
+        k = 0 if it % 15 == 14 else rng.randint(1, 4)
+        args = []
+        for _ in range(k):
+            r = rng.random()
+            if r < 0.8:
+                args.append(("nd", [n], [_r(rng.uniform(-2, 2)) for _ in range(n)]))
+            elif r < 0.86:
+                m = rng.choice([n + 1, max(n - 1, 0)])
+                args.append(("nd", [m], [_r(rng.uniform(-2, 2)) for _ in range(m)]))
+            elif r < 0.92:
+                args.append(("nd", [n, 1], [_r(rng.uniform(-2, 2)) for _ in range(n)]))
+            elif r < 0.96:
+                args.append(("nd", [], [1.5]))                  # a 0-d array
+            else:
+                args.append(("other", None, [_r(rng.uniform(-2, 2)) for _ in range(n)]))   # a Python list
+        scale = rng.choice([1.0] * 4 + [1e-300, 1e-12, 1e12])
+        if scale != 1.0 and args and args[0][0] == "nd":
+            args[0] = ("nd", args[0][1], [x * scale for x in args[0][2]])
+        icases.append(dict(w=w, args=args))
+        lines.append(f"C14.gen-integrate {n} {fvec(w)} {k}" + "".join(" other" if a[0] == "other" else f" nd {_ivec(a[1])} {fvec(a[2])}" for a in args))
+    for c, a in zip(icases, driver_batch(lines)):
+        g = bg.Grid(np.zeros((len(c["w"]), 3)), np.array(c["w"]))
+        pyargs = [list(x[2]) if x[0] == "other" else np.array(x[2], dtype=float).reshape(x[1]) for x in c["args"]]
+        try:
+            got, tag = float(g.integrate(*pyargs)), "ok"
+        except ValueError:
+            got, tag = None, "value-error"
+        except TypeError:
+            got, tag = None, "type-error"
+        except Exception as e:
+            got, tag = None, f"raised {type(e).__name__}: {e}"
+        ctx.count(["gen-integrate", c], nontrivial=len(c["args"]) != 1, tag="gen:integrate:" + ("ok" if tag == "ok" else "reject"))
+        t = Tokens(a)
+        if t.tok() != tag:
+            ctx.fail("corr", "basegrid.integrate:generated", f"Grid.integrate with {len(c['args'])} argument(s): implementation {tag}, translated function {a[:40]}", witness=c)
+            continue
+        if tag != "ok":
+            continue
+        gv = b2f(t.tok())
+        terms = [wi * math.prod(x[2][i] for x in c["args"]) for i, wi in enumerate(c["w"])]
+        want, sc = math.fsum(terms), math.fsum(abs(x) for x in terms)
+        if not (close(got, gv, rtol=1e-12, scale=sc + 1e-300) and close(got, want, rtol=1e-12, scale=sc + 1e-300)):
+            ctx.fail("corr", "basegrid.integrate:generated", f"implementation {got!r}, translated function {gv!r}, sum of w_i prod_k a_k[i] {want!r}", witness=c)
+    # 4d. MultiDomainGrid.moments: documented as not implemented
+    try:
+        ng = importlib.import_module("grid.ngrid")
+        od = importlib.import_module("grid.onedgrid")
+        md = ng.MultiDomainGrid([od.GaussLegendre(3), od.GaussLegendre(4)])
+        calls = [("int", "default", "default", lambda: md.moments(1, np.zeros((1, 2)), np.ones(12))),
+                 ("int", "radial", "1", lambda: md.moments(2, np.zeros((1, 2)), np.ones(12), type_mom="radial", return_orders=True)),
+                 ("int", "pure", "0", lambda: md.moments(0, np.zeros((2, 2)), np.ones(12), "pure", False))]
+        for (ot, ty, ret, call), a in zip(calls, driver_batch([f"C14.gen-multidomain {L} {ty} {ret}" for L, (_, ty, ret, _) in zip((1, 2, 0), calls)])):
+            try:
+                call()
+                tag = "ok"
+            except NotImplementedError:
+                tag = "not-implemented-error"
+            except Exception as e:
+                tag = f"raised {type(e).__name__}: {e}"
+            ctx.count(["gen-multidomain", ty, ret], nontrivial=False, tag="gen:multidomain")
+            if a.strip() != tag:
+                ctx.fail("corr", "ngrid.MultiDomainGrid.moments:generated", f"implementation {tag}, translated function {a}")
+    except ImportError:
+        pass
 
 
 SNIPPET = """import warnings; warnings.filterwarnings('ignore')
@@ -681,7 +933,13 @@ assert [list(map(int, r)) for r in orders] == want_orders, f'order list {{orders
 for k, order in enumerate(want_orders):
     for ci, c in enumerate(case['cs']):
         want, scale = direct(case['typ'], order, case['pts'], case['w'], case['f'], c)
-        assert abs(float(vals[k][ci]) - want) <= 1e-9 * (scale + 1e-300), f'row {{k}} {{order}} centre {{ci}}: moments {{float(vals[k][ci])!r}}, direct quadrature {{want!r}}'
+        assert abs(float(vals[k][ci]) - want) <= 1e-9 * (scale + 1e-300) + case.get('atol', 0.0), f'row {{k}} {{order}} centre {{ci}}: moments {{float(vals[k][ci])!r}}, direct quadrature {{want!r}}'
+if case.get('unshifted'):      # translation invariance: the same grid and centres before the (exact) translation
+    v0, _ = call_moments(dict(case, pts=case['unshifted']['pts'], cs=case['unshifted']['cs'], twice=False), Grid)
+    for k, order in enumerate(want_orders):
+        for ci, c in enumerate(case['cs']):
+            _, scale = direct(case['typ'], order, case['pts'], case['w'], case['f'], c)
+            assert abs(float(vals[k][ci]) - float(v0[k][ci])) <= 1e-12 * (scale + 1e-300), f'row {{k}} centre {{ci}}: {{float(vals[k][ci])!r}} after the translation, {{float(v0[k][ci])!r}} before'
 """
 
 DIPOLE_SNIPPET = """import warnings; warnings.filterwarnings('ignore')
@@ -699,11 +957,12 @@ except Exception as e:
 M = math.fsum(d['masses'])
 C = [math.fsum(m * r[j] for m, r in zip(d['masses'], d['coords'])) / M for j in range(3)]
 want = [math.fsum(z * (r[j] - C[j]) for z, r in zip(d['charges'], d['coords'])) - math.fsum(w * rho * (p[j] - C[j]) for w, rho, p in zip(d['w'], d['dens'], d['pts'])) for j in range(3)]
-assert len(got) == 3 and all(abs(float(a) - b) <= 1e-9 * (1 + abs(b)) for a, b in zip(got, want)), f'dipole {{list(got)}}, nuclear minus electronic first moments {{want}}'
+sc = 1 + (sum(d['charges']) + math.fsum(abs(a * b) for a, b in zip(d['w'], d['dens']))) * max(0.0, max(abs(x) for r in d['coords'] for x in r) - 2.0)
+assert len(got) == 3 and all(abs(float(a) - b) <= 1e-9 * (sc + abs(b)) for a, b in zip(got, want)), f'dipole {{list(got)}}, nuclear minus electronic first moments {{want}}'
 """
 
 HISTORY_SNIPPET = """import warnings; warnings.filterwarnings('ignore')
-import numpy as np
+import math, numpy as np
 from grid.basegrid import Grid
 {ref_src}
 history = {history!r}          # successive calls on ONE grid object
@@ -713,6 +972,10 @@ for step, case in enumerate(history):
     orders = np.asarray(orders); orders = orders.reshape(-1, 1) if orders.ndim == 1 else orders
     want_orders = ref_all_orders(case['L'], case['typ'], case['dim'])
     assert [list(map(int, r)) for r in orders] == want_orders, f'call {{step}}: order list {{orders.tolist()}} is not the documented Horton order'
+    alt = g.moments(case['L'], np.array(case['cs'], dtype=float), np.array(case['f'], dtype=float), type_mom=case['typ'])
+    assert isinstance(alt, np.ndarray) and alt.shape == np.shape(vals) and np.array_equal(alt, np.asarray(vals), equal_nan=True), f'call {{step}}: without return_orders the call returns a {{type(alt).__name__}} with other values than with it'
+    i0, s0 = float(g.integrate(np.array(case['f'], dtype=float))), sum(abs(a * b) for a, b in zip(case['w'], case['f']))
+    assert abs(i0 - math.fsum(a * b for a, b in zip(case['w'], case['f']))) <= 1e-9 * (s0 + 1e-300), f'call {{step}}: integrate(f) = {{i0!r}} is not sum w_i f_i'
     for k, order in enumerate(want_orders):
         for ci, c in enumerate(case['cs']):
             want, scale = direct(case['typ'], order, case['pts'], case['w'], case['f'], c)
@@ -760,6 +1023,19 @@ def _history_probe(ctx: Ctx, typ=None, dim=None, L=None):
         if [list(map(int, r)) for r in orders] != want_orders or np.shape(vals) != (len(want_orders), len(c["cs"])):
             report(f"order list / shape differ: {np.shape(vals)} for {len(want_orders)} orders and {len(c['cs'])} centres")
             return
+        # two option values alternating on one object, and another public method (integrate) in between
+        try:
+            alt = g.moments(c["L"], np.array(c["cs"], dtype=float), np.array(c["f"], dtype=float), type_mom=c["typ"])
+            i0 = float(g.integrate(np.array(c["f"], dtype=float)))
+        except Exception as e:
+            report(f"moments without return_orders / integrate raised {type(e).__name__}: {e}")
+            return
+        if not (isinstance(alt, np.ndarray) and alt.shape == np.shape(vals) and np.array_equal(alt, np.asarray(vals), equal_nan=True)):
+            report(f"the call without return_orders returns a {type(alt).__name__} with other values than the call with it")
+            return
+        if not close(i0, math.fsum(a * b for a, b in zip(c["w"], c["f"])), rtol=1e-9, scale=sum(abs(a * b) for a, b in zip(c["w"], c["f"])) + 1e-300):
+            report(f"integrate(f) = {i0!r} is not sum w_i f_i")
+            return
         for k, order in enumerate(want_orders):
             for ci, cen in enumerate(c["cs"]):
                 want, scale = direct(c["typ"], order, c["pts"], c["w"], c["f"], cen)
@@ -768,13 +1044,49 @@ def _history_probe(ctx: Ctx, typ=None, dim=None, L=None):
                     return
 
 
+def _oracle_dipole_case(ctx: Ctx, d):
+    """dipole_moment_of_molecule on one molecule against nuclear minus electronic first moments about the centre of mass."""
+    ut = importlib.import_module("grid.utils")
+    bg = importlib.import_module("grid.basegrid")
+    d = {k: v for k, v in d.items() if not k.startswith("_")}
+    snip = DIPOLE_SNIPPET.format(d=d, call_src=DIPOLE_CALL_SRC)
+    try:
+        got = [float(x) for x in call_dipole(d, bg.Grid, ut.dipole_moment_of_molecule)]
+    except Exception as e:
+        ctx.fail("oracle", "utils.dipole_moment_of_molecule", f"raised {type(e).__name__}: {e} (arguments given as {d.get('container', 'array')})", witness=d, snippet=snip)
+        return
+    M = math.fsum(d["masses"])
+    C = [math.fsum(m * r[j] for m, r in zip(d["masses"], d["coords"])) / M for j in range(3)]
+    want = [math.fsum(z * (r[j] - C[j]) for z, r in zip(d["charges"], d["coords"]))
+            - math.fsum(w * rho * (p[j] - C[j]) for w, rho, p in zip(d["w"], d["dens"], d["pts"])) for j in range(3)]
+    far = max(abs(x) for r in d["coords"] for x in r)
+    # as before for molecules near the origin; a molecule 2^k away: relative to the size of the terms Z |R|, w rho |p|
+    sc = 1 + 40 + (sum(d["charges"]) + math.fsum(abs(a * b) for a, b in zip(d["w"], d["dens"]))) * max(0.0, far - 2.0)
+    if len(got) != 3 or not all(close(a, b, rtol=1e-9, scale=abs(b) + sc) for a, b in zip(got, want)):
+        ctx.fail("oracle", "utils.dipole_moment_of_molecule", f"dipole {got}, nuclear minus electronic first moments about the centre of mass {want}", witness=d, snippet=snip)
+
+
 def oracle_at(ctx: Ctx, failure):
     """A correspondence disagreement -> the property itself at that input: the case alone on a fresh grid, and sequences of
     calls on one grid object with the same type / dimension / order (state carried between calls)."""
     w = failure.witness or {}
+    if isinstance(w, dict) and {"pts", "w", "dens", "coords", "charges", "masses"} <= set(w):
+        _oracle_dipole_case(ctx, w)                       # a disagreement on the dipole helper
+        return
+    if isinstance(w, dict) and set(w) == {"w", "args"} and all(a[0] == "nd" and a[1] == [len(w["w"])] for a in w["args"]) and w["args"]:
+        terms = [wi * math.prod(a[2][i] for a in w["args"]) for i, wi in enumerate(w["w"])]
+        arrays = [list(a[2]) for a in w["args"]]
+        snip = INTEGRATE_SNIPPET.format(w=w["w"], arrays=arrays)
+        try:
+            got = float(importlib.import_module("grid.basegrid").Grid(np.zeros((len(w["w"]), 3)), np.array(w["w"])).integrate(*[np.array(a) for a in arrays]))
+            if not close(got, math.fsum(terms), rtol=1e-12, scale=math.fsum(abs(t) for t in terms) + 1e-300):
+                ctx.fail("oracle", "basegrid.integrate", f"integrate gives {got!r}, sum_i w_i prod_k a_k[i] = {math.fsum(terms)!r}", witness=w, snippet=snip)
+        except Exception as e:
+            ctx.fail("oracle", "basegrid.integrate", f"integrate raised {type(e).__name__}: {e}", witness=w, snippet=snip)
+        return
     if not (isinstance(w, dict) and {"typ", "L", "dim", "pts", "w", "f", "cs"} <= set(w)):
         return
-    c = {k: w[k] for k in ("typ", "L", "dim", "pts", "w", "f", "cs") + VARIANT_KEYS if k in w}
+    c = {k: w[k] for k in PUB_KEYS if k in w}
     c["reuse_grid"] = False
     if not (c["typ"] in ("pure", "pure-radial") and c["dim"] != 3) and not (c["typ"] == "pure-radial" and c["L"] == 0) \
             and len(c["f"]) == len(c["pts"]) and all(len(x) == c["dim"] for x in c["cs"]):
@@ -786,11 +1098,37 @@ def oracle_at(ctx: Ctx, failure):
 # standard atomic weights (u), independent of the library's table; the library stores the
 # mass of the most abundant isotope, so only a loose agreement is expected
 _MASS_SANITY = {1: 1.008, 6: 12.011, 7: 14.007, 8: 15.999}
+# most abundant isotopes (Audi & Wapstra), for spot checks of the table incl. its first and last entry
+_MASS_SPOT = {1: 1.007825, 2: 4.002603, 6: 12.0, 7: 14.003074, 8: 15.994915, 9: 18.998403, 16: 31.972071, 26: 55.934942, 73: 180.947996, 74: 183.950933, 75: 186.955751, 79: 196.966552, 82: 207.976636}
+# The whole table as transcribed from the source (after repair 5ffbd8c of the rows 73 / 74, which held the masses of
+# 184-W / 187-Re): a *regression* reference for the entries without an independent value here — an edit of one entry
+# is reported with the entry as the failing input.
+_MASS_REFERENCE = {
+    1: 1.007825, 2: 4.002603, 3: 7.016004, 4: 9.012182, 5: 11.009305, 6: 12.0, 7: 14.003074, 8: 15.994915,
+    9: 18.998403, 10: 19.99244, 11: 22.98977, 12: 23.985042, 13: 26.981538, 14: 27.976927, 15: 30.973762, 16: 31.972071,
+    17: 34.968853, 18: 39.962383, 19: 38.963707, 20: 39.962591, 21: 44.95591, 22: 47.947947, 23: 50.943964, 24: 51.940512,
+    25: 54.93805, 26: 55.934942, 27: 58.9332, 28: 57.935348, 29: 62.929601, 30: 63.929147, 31: 68.925581, 32: 73.921178,
+    33: 74.921596, 34: 79.916522, 35: 78.918338, 36: 83.911507, 37: 84.911789, 38: 87.905614, 39: 88.905848, 40: 89.904704,
+    41: 92.906378, 42: 97.905408, 43: 97.907216, 44: 101.90435, 45: 102.905504, 46: 105.903483, 47: 106.905093, 48: 113.903358,
+    49: 114.903878, 50: 119.902197, 51: 120.903818, 52: 129.906223, 53: 126.904468, 54: 131.904154, 55: 132.905447, 56: 137.905241,
+    57: 138.906348, 58: 139.905434, 59: 140.907648, 60: 141.907719, 61: 144.912744, 62: 151.919728, 63: 152.921226, 64: 157.924101,
+    65: 158.925343, 66: 161.926795, 67: 164.930319, 68: 165.93029, 69: 168.934211, 70: 173.938858, 71: 174.940768, 72: 179.946549,
+    73: 180.947996, 74: 183.950933, 75: 186.955751, 76: 191.961479, 77: 192.962924, 78: 194.964774, 79: 196.966552, 80: 201.970626,
+    81: 204.974412, 82: 207.976636,
+}
+# standard atomic weights of H … Pb (typed independently of the library's table); the mass of a naturally occurring
+# isotope lies within 2.5 % of it (largest observed deviation of the pinned table: Zn-64, 2.2 %)
+_STD_WEIGHTS = [1.008, 4.0026, 6.94, 9.0122, 10.81, 12.011, 14.007, 15.999, 18.998, 20.180, 22.990, 24.305, 26.982, 28.085, 30.974, 32.06,
+                35.45, 39.948, 39.098, 40.078, 44.956, 47.867, 50.942, 51.996, 54.938, 55.845, 58.933, 58.693, 63.546, 65.38, 69.723, 72.630,
+                74.922, 78.971, 79.904, 83.798, 85.468, 87.62, 88.906, 91.224, 92.906, 95.95, 98.0, 101.07, 102.91, 106.42, 107.87, 112.41,
+                114.82, 118.71, 121.76, 127.60, 126.90, 131.29, 132.91, 137.33, 138.91, 140.12, 140.91, 144.24, 145.0, 150.36, 151.96, 157.25,
+                158.93, 162.50, 164.93, 167.26, 168.93, 173.05, 174.97, 178.49, 180.95, 183.84, 186.21, 190.23, 192.22, 195.08, 196.97, 200.59,
+                204.38, 207.2]
 
 
 def _oracle_case(ctx: Ctx, c):
     """One case against direct quadrature with independently coded basis functions."""
-    pub = {k: c[k] for k in ("typ", "L", "dim", "pts", "w", "f", "cs") + VARIANT_KEYS if k in c}
+    pub = {k: c[k] for k in PUB_KEYS if k in c}
     pub["reuse_grid"] = False
     key = f"basegrid.moments:{c['typ']}" + (f":dim{c['dim']}" if c["dim"] != 3 else "")
     snip = SNIPPET.format(ref_src=REF_SRC, call_src=CALL_SRC, case=pub)
@@ -813,11 +1151,230 @@ def _oracle_case(ctx: Ctx, c):
     for k, order in enumerate(want_orders):
         for ci, cen in enumerate(c["cs"]):
             want, scale = direct(c["typ"], order, c["pts"], c["w"], c["f"], cen)
-            if not close(vals[k][ci], want, rtol=1e-9, scale=scale + 1e-300):
+            if not close(vals[k][ci], want, rtol=1e-9, scale=scale + 1e-300, atol=c.get("atol", 0.0)):
                 bad = bad or (k, order, ci, vals[k][ci], want)
     if bad:
         ctx.fail("oracle", key, f"row {bad[0]} (order {bad[1]}), centre {bad[2]}: moments gives {bad[3]!r}, direct quadrature of the defining integrand {bad[4]!r}",
                  witness=dict(pub, row=bad[0], order=bad[1], centre=bad[2], got=bad[3], want=bad[4]), snippet=snip)
+        return
+    if c.get("unshifted"):
+        # translation invariance (exactly representable shift): the untranslated grid and centres give the same moments
+        c0 = dict(c, pts=c["unshifted"]["pts"], cs=c["unshifted"]["cs"], twice=False, reuse_grid=False)
+        tag0, v0, _ = _impl_moments(c0)
+        if tag0 != "ok":
+            ctx.fail("oracle", key + ":translated", f"the untranslated call raised {tag0}", witness=pub, snippet=snip)
+            return
+        for k, order in enumerate(want_orders):
+            for ci, cen in enumerate(c["cs"]):
+                _, scale = direct(c["typ"], order, c["pts"], c["w"], c["f"], cen)
+                if not close(vals[k][ci], v0[k][ci], rtol=1e-12, scale=scale + 1e-300):
+                    ctx.fail("oracle", key + ":translated", f"row {k} (order {order}), centre {ci}: {vals[k][ci]!r} on the grid translated by {c['extreme']}, "
+                             f"{v0[k][ci]!r} before the translation", witness=dict(pub, row=k, centre=ci), snippet=snip)
+                    return
+
+# ----------------------------------------------------------------------------------------
+# round 3, class 12: grids whose public `points` is derived from what they store (off-origin / rotated / single-shell
+# AtomGrid, MolGrid, LocalGrid, wrapped PeriodicGrid incl. a negative 1-D lattice vector, UniformGrid with negative
+# axes in 2-D and 3-D, Tensor1DGrids, OneDGrid), with centres on special points: the grid's own centre, the Cartesian
+# origin, a grid point, a point of a shell.  Every entry against direct quadrature over grid.points / grid.weights.
+# ----------------------------------------------------------------------------------------
+LIBGRID_PRELUDE = """import warnings; warnings.filterwarnings('ignore')
+import numpy as np
+from grid.basegrid import Grid, OneDGrid, LocalGrid
+from grid.onedgrid import GaussLegendre, GaussChebyshev
+from grid.rtransform import BeckeRTransform
+from grid.atomgrid import AtomGrid
+from grid.molgrid import MolGrid
+from grid.becke import BeckeWeights
+from grid.periodicgrid import PeriodicGrid
+from grid.cubic import UniformGrid, Tensor1DGrids
+rg = BeckeRTransform(1e-3, 1.5).transform_1d_grid(GaussLegendre(5))
+rg1 = OneDGrid(np.array([0.75]), np.array([0.4]), (0, np.inf))      # a single radial shell
+def smooth(P):
+    Q = np.asarray(P, dtype=float).reshape(len(P), -1)
+    Q = Q - Q.mean(axis=0)
+    return np.exp(-0.3 * np.sum(Q * Q, axis=1)) * (1.0 + 0.5 * Q[:, 0])
+"""
+
+LIBGRID_SNIPPET = """{prelude}
+{ref_src}
+g = {expr}
+P = np.asarray(g.points, dtype=float); P2 = P.reshape(len(P), -1); W = np.asarray(g.weights, dtype=float)
+fv = smooth(P)
+cs, typ, L = {cs!r}, {typ!r}, {L}
+vals, orders = g.moments(L, np.array(cs, dtype=float), fv, type_mom=typ, return_orders=True)
+orders = np.asarray(orders); orders = orders.reshape(-1, 1) if orders.ndim == 1 else orders
+want_orders = ref_all_orders(L, typ, P2.shape[1])
+assert [list(map(int, r)) for r in orders] == want_orders, orders.tolist()
+assert np.shape(vals) == (len(want_orders), len(cs)), np.shape(vals)
+for k, order in enumerate(want_orders):
+    for ci, c in enumerate(cs):
+        want, scale = direct(typ, order, P2.tolist(), W.tolist(), fv.tolist(), c)
+        assert abs(float(vals[k][ci]) - want) <= 1e-9 * (scale + 1e-300), f'row {{k}} {{order}} centre {{ci}}: moments {{float(vals[k][ci])!r}}, direct quadrature over grid.points {{want!r}}'
+assert abs(float(g.integrate(fv)) - float(np.asarray(g.moments(0, np.array(cs[:1], dtype=float), fv, type_mom='radial'))[0][0])) <= 1e-9 * float(np.sum(np.abs(W * fv)))
+"""
+
+
+def _library_grids(ctx: Ctx, budget: str):
+    rng = ctx.rng
+    ns = {}
+    exec(LIBGRID_PRELUDE, ns)
+    v3 = lambda a, b: [_r(rng.uniform(a, b)) for _ in range(3)]
+    ctr = v3(-1.5, 1.5)
+    rot = rng.randrange(1, 1000)
+    pts = [v3(-1.5, 1.5) for _ in range(rng.randint(4, 9))]
+    w = [_r(rng.uniform(-0.5, 1.5)) for _ in pts]
+    c_loc = v3(-0.5, 0.5)
+    vecs = [[1.5, 0.0, 0.0], [0.25, -1.25, 0.0], [0.0, 0.5, -2.0]]
+    pts1 = [_r(rng.uniform(-3, 3)) for _ in range(rng.randint(2, 7))]
+    axes = [[-0.5, 0.0, 0.125], [0.0, -0.25, 0.0], [0.0, 0.125, 0.75 * rng.choice([-1, 1])]]
+    grids = [
+        ("AtomGrid off-origin, rotated", f"AtomGrid(rg, degrees=[5], center=np.array({ctr}), rotate={rot})", [ctr]),
+        ("AtomGrid with a single shell", f"AtomGrid(rg1, degrees=[3], center=np.array({ctr}))", [ctr, [ctr[0], ctr[1], ctr[2] + 0.75]]),
+        ("MolGrid of two off-origin atoms", f"MolGrid(np.array([1, 8]), [AtomGrid(rg, degrees=[5], center=np.array({ctr}), rotate={rot}), "
+         f"AtomGrid(rg, degrees=[3], center=-np.array({ctr}))], BeckeWeights(order=3), store={bool(rng.randrange(2))})", [ctr, [-x for x in ctr]]),
+        ("LocalGrid of a Grid", f"Grid(np.array({pts}), np.array({w})).get_localgrid(np.array({c_loc}), 1.75)", [c_loc]),
+        ("LocalGrid of a Grid, infinite radius", f"Grid(np.array({pts}), np.array({w})).get_localgrid(np.array({c_loc}), np.inf)", [c_loc]),
+        ("LocalGrid of an off-origin AtomGrid", f"AtomGrid(rg, degrees=[5], center=np.array({ctr})).get_localgrid(np.array({ctr}) + 0.25, 1.5)",
+         [ctr, [x + 0.25 for x in ctr]]),
+        ("PeriodicGrid, wrapped", f"PeriodicGrid(np.array({[[x * 3 for x in p_] for p_ in pts]}), np.array({w}), np.array({vecs}), wrap=True)", []),
+        ("PeriodicGrid in one dimension, negative lattice vector", f"PeriodicGrid(np.array({pts1}), np.array({w[:len(pts1)] + [0.5] * max(0, len(pts1) - len(w))}), np.array([-1.5]), wrap=True)", []),
+        ("UniformGrid with negative axes", f"UniformGrid(np.array({v3(-1, 1)}), np.array({axes}), np.array([3, 2, 4]), weight='Trapezoid')", []),
+        ("UniformGrid in two dimensions, negative axes", f"UniformGrid(np.array([0.5, -0.25]), np.array([[-0.5, 0.125], [0.0, -0.75]]), np.array([3, 4]), weight='Rectangle')", []),
+        ("Tensor1DGrids", "Tensor1DGrids(GaussLegendre(3), GaussChebyshev(2), GaussLegendre(2))", []),
+        ("GaussChebyshev (OneDGrid)", "GaussChebyshev(5)", []),
+        ("Grid of one point", f"Grid(np.array([{ctr}]), np.array([0.7]))", [ctr]),
+    ]
+    for name, expr, special in grids:
+        try:
+            g = eval(expr, ns)
+        except ImportError:
+            continue
+        except Exception as e:
+            ctx.fail("oracle", "basegrid.moments:library-grid:build", f"{name}: construction raised {type(e).__name__}: {e}", witness=dict(grid=expr))
+            continue
+        P = np.asarray(g.points, dtype=float)
+        P2, W = P.reshape(len(P), -1), np.asarray(g.weights, dtype=float)
+        dim = P2.shape[1]
+        fv = ns["smooth"](P)
+        cs = [[_r(rng.uniform(-1, 1)) for _ in range(dim)], [0.0] * dim, P2[rng.randrange(len(P2))].tolist()] + [list(c) for c in special]
+        for ty in (TYPES if dim == 3 else TYPES[:2]):
+            L = 2 if ty != "cartesian" or len(P2) < 200 else 1
+            key = f"basegrid.moments:{ty}:{type(g).__name__}"
+            snip = LIBGRID_SNIPPET.format(prelude=LIBGRID_PRELUDE, ref_src=REF_SRC, expr=expr, cs=cs, typ=ty, L=L)
+            wit = dict(grid=expr, type_mom=ty, orders=L, centers=cs)
+            ctx.tagc(f"oracle:moments:derived-points:{type(g).__name__}")
+            try:
+                vals, orders = g.moments(L, np.array(cs, dtype=float), fv, type_mom=ty, return_orders=True)
+                i0 = float(g.integrate(fv))
+                m0 = float(np.asarray(g.moments(0, np.array(cs[:1], dtype=float), fv, type_mom="radial"))[0][0])
+            except Exception as e:
+                ctx.fail("oracle", key, f"{name}: moments raised {type(e).__name__}: {e}", witness=wit, snippet=snip)
+                continue
+            orders = np.asarray(orders)
+            orders = [[int(x) for x in r] for r in (orders.reshape(-1, 1) if orders.ndim == 1 else orders)]
+            want_orders = ref_all_orders(L, ty, dim)
+            if orders != want_orders or np.shape(vals) != (len(want_orders), len(cs)):
+                ctx.fail("oracle", key + ":orders", f"{name}: order list / shape {np.shape(vals)}", witness=wit, snippet=snip)
+                continue
+            if not close(i0, m0, rtol=1e-9, scale=float(np.sum(np.abs(W * fv)))):
+                ctx.fail("oracle", key + ":integrate", f"{name}: integrate(f) = {i0!r} but the zeroth radial moment is {m0!r}", witness=wit, snippet=snip)
+            bad = None
+            for k, order in enumerate(want_orders):
+                for ci, cen in enumerate(cs):
+                    want, scale = direct(ty, order, P2.tolist(), W.tolist(), fv.tolist(), cen)
+                    if not close(float(vals[k][ci]), want, rtol=1e-9, scale=scale + 1e-300):
+                        bad = bad or (k, order, ci, float(vals[k][ci]), want)
+            if bad:
+                ctx.fail("oracle", key, f"{name}: row {bad[0]} {bad[1]} centre {bad[2]} ({cs[bad[2]]}): {bad[3]!r} vs direct quadrature over grid.points {bad[4]!r}",
+                         witness=dict(wit, row=bad[0], centre=bad[2]), snippet=snip)
+
+
+INTEGRATE_SNIPPET = """import warnings; warnings.filterwarnings('ignore')
+import math, numpy as np
+from grid.basegrid import Grid
+w, arrays = {w!r}, {arrays!r}
+g = Grid(np.zeros((len(w), 3)), np.array(w))
+got = float(g.integrate(*[np.array(a) for a in arrays]))
+terms = [wi * math.prod(a[i] for a in arrays) for i, wi in enumerate(w)]
+assert abs(got - math.fsum(terms)) <= 1e-12 * (math.fsum(abs(t) for t in terms) + 1e-300), (got, math.fsum(terms))
+"""
+
+MULTIDOMAIN_SNIPPET = """import warnings; warnings.filterwarnings('ignore')
+import math, itertools, numpy as np
+from grid.basegrid import OneDGrid
+from grid.ngrid import MultiDomainGrid
+x, wx, y, wy, L, c = {x!r}, {wx!r}, {y!r}, {wy!r}, {L}, {c!r}
+md = MultiDomainGrid([OneDGrid(np.array(x), np.array(wx)), OneDGrid(np.array(y), np.array(wy))])
+f = [math.exp(-a * a - 0.5 * b * b) * (1 + a) for a, b in itertools.product(x, y)]
+try:
+    vals, orders = md.moments(L, np.array([c]), np.array(f), type_mom='cartesian', return_orders=True)
+except NotImplementedError:
+    raise SystemExit(0)          # documented: not implemented for multi-domain grids
+orders = [[int(v) for v in r] for r in np.asarray(orders)]
+assert orders == [[a, l - a] for l in range(L + 1) for a in range(l, -1, -1)], orders
+for k, (a, b) in enumerate(orders):
+    want = math.fsum(u * v * fv * (p - c[0]) ** a * (q - c[1]) ** b for ((p, u), (q, v)), fv in zip(itertools.product(zip(x, wx), zip(y, wy)), f))
+    assert abs(float(vals[k][0]) - want) <= 1e-9 * (1 + abs(want)), f'row {{k}} ({{a}}, {{b}}): {{float(vals[k][0])!r}}, direct quadrature over the product grid {{want!r}}'
+"""
+
+
+def _underflow_info(ctx: Ctx):
+    """Outside the claim (DESIGN 3: overflow / underflow paths are not modelled), recorded as an info line: a grid point about
+    1e-160 straight above a centre — r^2 underflows in convert_cart_to_sph, z/r > 1, arccos gives nan — makes the pure
+    moments of order >= 1 nan; between 1e-155 and 1e-162 the pure types lose accuracy.  Not a violation, never a failure."""
+    try:
+        bg = importlib.import_module("grid.basegrid")
+        v = np.asarray(bg.Grid(np.array([[0.0, 0.0, 1e-160]]), np.array([1.0])).moments(1, np.zeros((1, 3)), np.array([1.0]), type_mom="pure"), dtype=float).ravel()
+        ctx.info("outside the claim (underflow of r^2, DESIGN 3): Grid([[0,0,1e-160]],[1.]).moments(1, zeros((1,3)), [1.], 'pure') = "
+                 f"{v.tolist()} (exact: [1, 1e-160, 0, 0]); separations 1e-155 … 1e-162 from a centre are not generated")
+    except Exception as e:
+        ctx.info(f"underflow probe raised {type(e).__name__}: {e}")
+
+
+def _oracle_integrate(ctx: Ctx, budget: str):
+    """Grid.integrate is the grid quadrature: sum_i w_i prod_k a_k[i] for 1-4 arrays, values over 24 orders of magnitude."""
+    bg = importlib.import_module("grid.basegrid")
+    rng = ctx.rng
+    for it in range(12 if budget == "small" else 200):
+        n = rng.randint(1, 9)
+        w = [_r(rng.uniform(-0.5, 1.5)) for _ in range(n)]
+        arrays = [[_r(rng.uniform(-2, 2)) * rng.choice([1.0, 1.0, 1e-12, 1e12, 1e-100]) for _ in range(n)] for _ in range(1 + it % 4)]
+        ctx.tagc(f"oracle:integrate:{len(arrays)}arrays")
+        snip = INTEGRATE_SNIPPET.format(w=w, arrays=arrays)
+        try:
+            got = float(bg.Grid(np.zeros((n, 3)), np.array(w)).integrate(*[np.array(a) for a in arrays]))
+        except Exception as e:
+            ctx.fail("oracle", "basegrid.integrate", f"integrate with {len(arrays)} array(s) raised {type(e).__name__}: {e}", witness=dict(w=w, arrays=arrays), snippet=snip)
+            continue
+        terms = [wi * math.prod(a[i] for a in arrays) for i, wi in enumerate(w)]
+        if not close(got, math.fsum(terms), rtol=1e-12, scale=math.fsum(abs(t) for t in terms) + 1e-300):
+            ctx.fail("oracle", "basegrid.integrate", f"integrate of {len(arrays)} array(s) gives {got!r}, sum_i w_i prod_k a_k[i] = {math.fsum(terms)!r}",
+                     witness=dict(w=w, arrays=arrays), snippet=snip)
+
+
+def _oracle_multidomain(ctx: Ctx):
+    """MultiDomainGrid.moments is documented as not implemented; should it ever answer, the answer has to be the
+    quadrature over the product grid."""
+    try:
+        importlib.import_module("grid.ngrid")
+    except ImportError:
+        return
+    rng = ctx.rng
+    x, y = sorted(_r(rng.uniform(-1, 1)) for _ in range(3)), sorted(_r(rng.uniform(-1, 1)) for _ in range(2))
+    snip = MULTIDOMAIN_SNIPPET.format(x=x, wx=[0.5, 0.75, 0.25], y=y, wy=[1.0, 0.5], L=2, c=[0.25, -0.5])
+    ns = {}
+    ctx.tagc("oracle:multidomain")
+    try:
+        exec(snip, ns)
+    except SystemExit:
+        pass
+    except AssertionError as e:
+        ctx.fail("oracle", "ngrid.MultiDomainGrid.moments", f"MultiDomainGrid.moments answers, but not with the quadrature over the product grid: {e}",
+                 witness=dict(x=x, y=y), snippet=snip)
+    except Exception as e:
+        ctx.fail("oracle", "ngrid.MultiDomainGrid.moments", f"MultiDomainGrid.moments raised {type(e).__name__}: {e} (documented: NotImplementedError)",
+                 witness=dict(x=x, y=y), snippet=snip)
 
 
 def oracle(ctx: Ctx, budget: str):
@@ -888,10 +1445,18 @@ def oracle(ctx: Ctx, budget: str):
             fv = np.exp(-q[:, 0] ** 2 - 0.5 * (q[:, 1] - 0.2) ** 2 - q[:, 2] ** 2) * (1 + q[:, 0])
             cs = [[0.1, -0.2, 0.3], [0.0, 0.0, 0.0]]
             for ty in TYPES:
-                vals, orders = at.moments(2, np.array(cs), fv, type_mom=ty, return_orders=True)
+                try:
+                    vals, orders = at.moments(2, np.array(cs), fv, type_mom=ty, return_orders=True)
+                except Exception as e:
+                    ctx.fail("oracle", f"basegrid.moments:{ty}:atomgrid", f"{name}: moments raised {type(e).__name__}: {e}", witness={"grid": name, "type_mom": ty})
+                    continue
                 orders = np.asarray(orders)
                 orders = orders.reshape(-1, 1) if orders.ndim == 1 else orders
                 ctx.tagc("oracle:moments:library-grid")
+                if [[int(x) for x in r] for r in orders] != ref_all_orders(2, ty, 3):
+                    ctx.fail("oracle", f"basegrid.moments:{ty}:atomgrid:orders", f"{name}: returned order list {orders.tolist()[:6]}… is not the documented Horton order",
+                             witness={"grid": name, "type_mom": ty})
+                    continue
                 for k, order in enumerate(orders):
                     for ci, cen in enumerate(cs):
                         want, scale = direct(ty, [int(x) for x in order], P.tolist(), np.asarray(at.weights, dtype=float).tolist(), fv.tolist(), cen)
@@ -900,6 +1465,10 @@ def oracle(ctx: Ctx, budget: str):
                                      witness={"grid": name, "type_mom": ty, "order": order.tolist(), "center": cen})
     except ImportError:
         pass
+    _library_grids(ctx, budget)
+    _underflow_info(ctx)
+    _oracle_integrate(ctx, budget)
+    _oracle_multidomain(ctx)
     # 1-D grids of the library have a one-dimensional point array (N,)
     od = importlib.import_module("grid.onedgrid")
     for it in range(8 if budget == "small" else 100):
@@ -928,31 +1497,64 @@ def oracle(ctx: Ctx, budget: str):
                 want, scale = direct(typ, [k], [[float(x)] for x in g1.points], g1.weights, f1, c)
                 if not close(float(got[k][ci]), want, rtol=1e-9, scale=scale + 1e-300):
                     ctx.fail("oracle", key, f"row {k}, centre {ci}: moments {float(got[k][ci])!r}, direct quadrature {want!r}", witness=wit, snippet=snip)
-    # dipole
-    for _ in range(10 if budget == "small" else 200):
+    # dipole: every element of the mass table (the last one in every run), charged species (the dipole of a neutral
+    # molecule does not depend on the centre: the density is normalised to sum Z - q, q = -2 … 2), far-away molecules
+    zmax = max(ut.isotopic_masses)
+    for z in sorted(ut.isotopic_masses):
+        m = float(ut.isotopic_masses[z])
+        if not (1 <= z <= len(_STD_WEIGHTS)) or abs(m - _STD_WEIGHTS[z - 1]) > 0.025 * _STD_WEIGHTS[z - 1]:
+            ctx.fail("oracle", "utils.isotopic_masses", f"mass of Z={z} is {m}, the standard atomic weight is {_STD_WEIGHTS[z - 1] if 1 <= z <= len(_STD_WEIGHTS) else None} "
+                     "(an isotopic mass lies within 2.5 % of it)", witness=dict(Z=z, mass=m))
+    for z, m in _MASS_SPOT.items():                   # the source cites Audi & Wapstra 1993/1995: spot values from there
+        got = ut.isotopic_masses.get(z)
+        if got is None or abs(float(got) - m) > 1e-9:
+            ctx.fail("oracle", "utils.isotopic_masses", f"isotopic_masses[{z}] is {got!r}, the tabulated mass of the most abundant isotope is {m}", witness=dict(Z=z),
+                     snippet=f"from grid.utils import isotopic_masses\nassert abs(isotopic_masses[{z}] - {m}) <= 1e-9, isotopic_masses[{z}]\n")
+    for z, m in _MASS_REFERENCE.items():
+        got = ut.isotopic_masses.get(z)
+        if got is None or abs(float(got) - m) > 1e-9:
+            ctx.fail("oracle", "utils.isotopic_masses", f"isotopic_masses[{z}] is {got!r}; the table as transcribed from the cited source has {m}", witness=dict(Z=z),
+                     snippet=f"from grid.utils import isotopic_masses\nassert abs(isotopic_masses[{z}] - {m}) <= 1e-9, isotopic_masses[{z}]\n")
+    dup = [(a, b) for a in sorted(ut.isotopic_masses) for b in sorted(ut.isotopic_masses) if a < b and ut.isotopic_masses[a] == ut.isotopic_masses[b]]
+    if dup:
+        ctx.fail("oracle", "utils.isotopic_masses", f"elements {dup} share one isotopic mass ({ut.isotopic_masses[dup[0][0]]})", witness=dict(Z=dup),
+                 snippet="from grid.utils import isotopic_masses as m\nassert len(set(m.values())) == len(m), sorted(z for z in m if list(m.values()).count(m[z]) > 1)\n")
+    if set(ut.isotopic_masses) != set(_MASS_REFERENCE):
+        extra = sorted(set(ut.isotopic_masses) ^ set(_MASS_REFERENCE))
+        ctx.fail("oracle", "utils.isotopic_masses", f"the keys of isotopic_masses differ from 1..82 at {extra}", witness=dict(Z=extra),
+                 snippet="from grid.utils import isotopic_masses\nassert sorted(isotopic_masses) == list(range(1, 83)), sorted(isotopic_masses)\n")
+    for it in range(24 if budget == "small" else 300):
         na = ctx.rng.randint(1, 4)
         npt = ctx.rng.randint(1, 15)
         d = dict(pts=[[_r(ctx.rng.uniform(-2, 2)) for _ in range(3)] for _ in range(npt)],
                  w=[_r(ctx.rng.uniform(0.0, 1.5)) for _ in range(npt)],
                  dens=[_r(ctx.rng.uniform(0.0, 2.0)) for _ in range(npt)],
                  coords=[[_r(ctx.rng.uniform(-1.5, 1.5)) for _ in range(3)] for _ in range(na)],
-                 charges=[ctx.rng.choice([1, 6, 7, 8]) for _ in range(na)])
+                 charges=[ctx.rng.choice([1, 6, 7, 8, ctx.rng.randint(1, zmax), ctx.rng.randint(1, zmax)]) for _ in range(na)])
+        if it == 0:
+            d["charges"][0] = zmax                                   # the last entry of the table
+        elif it == 1:
+            d["charges"][-1] = 1
+        elif it < 6:
+            d["charges"][0] = (it * 17 + ctx.seed * 7) % zmax + 1        # walks through the table with the seed
+        q = ctx.rng.choice([0, 0, 1, -1, 2, -2])
+        ne, tot = math.fsum(a * b for a, b in zip(d["w"], d["dens"])), sum(d["charges"]) - q
+        if it % 2 == 0 and ne > 0 and tot > 0:                       # net charge exactly q (up to rounding)
+            d["dens"] = [x * tot / ne for x in d["dens"]]
+            d["net_charge"] = q
+        if it % 5 == 4:                                              # the whole system 2^k away from the origin
+            k = ctx.rng.randint(10, 20)
+            T = [ctx.rng.choice([-1.0, 1.0]) * 2.0 ** k for _ in range(3)]
+            d["pts"] = [[x + t for x, t in zip(p_, T)] for p_ in d["pts"]]
+            d["coords"] = [[x + t for x, t in zip(p_, T)] for p_ in d["coords"]]
+            d["shift"] = f"2^{k}"
+        missing = [z for z in d["charges"] if z not in ut.isotopic_masses]
+        if missing:
+            ctx.fail("oracle", "utils.isotopic_masses", f"no entry for Z = {missing}", witness=dict(Z=missing),
+                     snippet=f"from grid.utils import isotopic_masses\nassert all(z in isotopic_masses for z in {missing})\n")
+            continue
         d["masses"] = [float(ut.isotopic_masses[z]) for z in d["charges"]]
-        for z, m in zip(d["charges"], d["masses"]):
-            if abs(m - _MASS_SANITY[z]) > 0.02 * _MASS_SANITY[z]:
-                ctx.fail("oracle", "utils.isotopic_masses", f"mass of Z={z} is {m}, expected about {_MASS_SANITY[z]}")
         d["container"] = ctx.rng.choice(["array", "array", "list", "int32-charges", "float-charges", "readonly"])
         d["twice"] = ctx.rng.random() < 0.3
-        try:
-            got = [float(x) for x in call_dipole(d, bg.Grid, ut.dipole_moment_of_molecule)]
-        except Exception as e:
-            ctx.fail("oracle", "utils.dipole_moment_of_molecule", f"raised {type(e).__name__}: {e} (arguments given as {d['container']})",
-                     witness=d, snippet=DIPOLE_SNIPPET.format(d=d, call_src=DIPOLE_CALL_SRC))
-            continue
-        M = math.fsum(d["masses"])
-        C = [math.fsum(m * r[j] for m, r in zip(d["masses"], d["coords"])) / M for j in range(3)]
-        want = [math.fsum(z * (r[j] - C[j]) for z, r in zip(d["charges"], d["coords"]))
-                - math.fsum(w * rho * (p[j] - C[j]) for w, rho, p in zip(d["w"], d["dens"], d["pts"])) for j in range(3)]
-        if len(got) != 3 or not all(close(a, b, rtol=1e-9, scale=1 + abs(b) + 40) for a, b in zip(got, want)):
-            ctx.fail("oracle", "utils.dipole_moment_of_molecule", f"dipole {got}, nuclear minus electronic first moments about the centre of mass {want}",
-                     witness=d, snippet=DIPOLE_SNIPPET.format(d=d, call_src=DIPOLE_CALL_SRC))
+        ctx.tagc("oracle:dipole:" + ("charged" if d.get("net_charge") else "shifted" if d.get("shift") else "plain"))
+        _oracle_dipole_case(ctx, d)
